@@ -127,6 +127,12 @@ Foo Bar A B x 1 2.5 $FF 'str' #13 &begin
 resident external 'lib.dll' delayed dispinterface on E: 0FFh "dq" 'un
 """.split()
 ALPHABET = [a.replace("\\n", "\n") for a in ALPHABET]
+# degenerate and boundary spellings of comments, directives, literals and operators (the shortest forms, openers that
+# look closed, closers without openers): each is a token boundary the lexical rules decide in one particular way
+DEGENERATE = ["(*)", "(*)x*)", "(**)", "(***)", "(*)*)", "{}", "{ }", "(*$*)", "{$}", "{$ }", "''", "''''", "'", "'''", "#", "$", "&", "&&x", "..", "...",
+              "(.", ".)", "(*", "*)", "{", "}", "//", "///", "/", "/*", "1..2", "1.e", ".5", "1e", "1e+", "$G", "%2", "#$", "#%", "@@x", "<>", "<=", ">=", ":=",
+              "=:", "<<", ">>", "**", "(*{*)", "{(*}", "{//}", "(*//*)", "//{", "//(*"]
+ALPHABET += DEGENERATE
 
 
 def soup(rng, lo=1, hi=10):
